@@ -49,3 +49,26 @@ package encoder
 //@   ensures[unverified] forall k :: 0 <= k && k < len(out) ==> res[k] == old(out[k])
 //@   assigns M
 //@   loop 1: unroll 9 split
+
+//@ spec ws(c) := c == 32 || c == 10 || c == 9 || c == 13
+//@ spec bufOK(b, c) := len(b) >= 1 && b[len(b)-1] == 0 && 0 <= c && c < len(b)
+//@ spec wsRun(b, lo, hi) := forall k :: 0 <= k && k < hi - lo ==> ws(b[lo+k])
+
+// Trailing data (C05, C18): success only at the real terminator.
+//@ func validateEndBuf(src, cursor) (err)
+//@   props C05 C06 C18
+//@   requires bufOK(src, cursor)
+//@   ensures err == nil ==> wsRun(src, cursor, len(src)-1)
+//@   assigns nothing
+//@   loop 1: invariant old(cursor) <= cursor && cursor < len(src) && wsRun(src, old(cursor), cursor)
+//@   loop 1: decreases len(src) - cursor
+
+//@ tablelemma[C05,C06,C18] isWhiteSpace(j, v) := v <==> ws(j)
+
+//@ func skipWhiteSpace(buf, cursor) (c)
+//@   props C05 C06 C18
+//@   requires bufOK(buf, cursor)
+//@   ensures cursor <= c && c < len(buf) && wsRun(buf, cursor, c) && !ws(buf[c])
+//@   assigns nothing
+//@   loop 1: invariant old(cursor) <= cursor && cursor < len(buf) && wsRun(buf, old(cursor), cursor)
+//@   loop 1: decreases len(buf) - cursor
